@@ -477,6 +477,10 @@ def signStart : Tok → Bool
   | .add | .sub | .incr | .decr => true
   | _ => false
 
+def isField : Expr → Bool
+  | .field _ => true
+  | _ => false
+
 mutual
 /-- `renderMin` as a tree transformation: insert exactly the `group` nodes the table requires (`pc` = print argument context,
     which lasts until the first parenthesis). Input: a tree without `group` nodes. -/
@@ -491,7 +495,8 @@ def addMin (pc : Bool) : Expr → Expr
   | .assign op l r => .assign op (addMin false l) (addMin pc r)
   | .inArr e a => .inArr (fitMin pc 5 e) a
   | .incr true dec e => .incr true dec (addMin false e)
-  | .incr false dec (.field (.field e)) => .incr false dec (.field (.group (.field (fitMin false 14 e))))  -- `$$x++` is `$($x++)`
+  | .incr false dec (.field e) =>   -- `$$x++` is `$($x++)`: the operand of `$` under a post-increment must be closed
+    .incr false dec (.field (if isField e then .group (addMin false e) else fitMin false 14 e))
   | .incr false dec e => .incr false dec (addMin false e)
   | .field e => .field (fitMin false 14 e)
   | .index a i => .index a (addMin false i)
